@@ -15,22 +15,28 @@ def brute(x, qv, strategy, fill):
     if strategy == "higher":
         c = [i for i in range(n) if x[i] >= qv]
         return min(c) if c else (n - 1 if fill else n)
+    from fractions import Fraction
     best = 0
+    fq = Fraction(qv)
     for i in range(n):
-        if abs(x[i] - qv) < abs(x[best] - qv):
+        if abs(Fraction(x[i]) - fq) < abs(Fraction(x[best]) - fq):     # exact rationals of the floats decide
             best = i
     return best
 
 
 def near_tie(x, v):
-    """float-only corner (DESIGN 3.6): the implementation compares the *rounded* differences
-    q - x_lo and x_hi - q; when the exact ones differ by less than 1e-9 of the gap (but are not
-    exactly equal) the rounded comparison may go either way.  Such queries are dropped."""
+    """float-only corner (DESIGN 3.6): the implementation compares the *rounded* differences q - x_lo and x_hi - q.
+    A query whose exact differences differ by less than 1e-9 of the gap (but are not equal) is dropped ONLY when one of
+    the two float subtractions is inexact; when both are exact (e.g. by Sterbenz' lemma) the implementation's decision is
+    the exact one and the case is kept."""
     from fractions import Fraction
     for lo, hi in zip(x[:-1], x[1:]):
         if lo < v < hi:
             d = (Fraction(v) - Fraction(lo)) - (Fraction(hi) - Fraction(v))
-            return d != 0 and abs(d) < Fraction(1, 10 ** 9) * (Fraction(hi) - Fraction(lo))
+            if d != 0 and abs(d) < Fraction(1, 10 ** 9) * (Fraction(hi) - Fraction(lo)):
+                exact_sub = Fraction(v - lo) == Fraction(v) - Fraction(lo) and Fraction(hi - v) == Fraction(hi) - Fraction(v)
+                return not exact_sub
+            return False
     return False
 
 
@@ -73,7 +79,10 @@ Definition chk_search (x l : list Qc) (r : list (obs (list Z))) : bool :=
         nrand = 300 if tier == "quick" else 3000
         for _ in range(nrand):
             n = rng.randint(1, 12)
-            x = sorted({rng.choice([rng.uniform(-100, 100), float(rng.randint(-20, 20)), rng.uniform(-1, 1) * 2.0 ** rng.randint(-30, 30)]) for _ in range(n)})
+            if rng.random() < 0.3:    # decimal grids: elements are not binary fractions, midpoints are rounded
+                x = sorted({round(rng.randint(-30, 30) * rng.choice([0.1, 0.05, 0.3, 1.35]), 6) for _ in range(n)})
+            else:
+                x = sorted({rng.choice([rng.uniform(-100, 100), float(rng.randint(-20, 20)), rng.uniform(-1, 1) * 2.0 ** rng.randint(-30, 30)]) for _ in range(n)})
             qs_ = []
             for _ in range(rng.randint(1, 10)):
                 e = rng.choice(x)
